@@ -98,6 +98,11 @@ def _one(rec):
             res["notes"].append("code accepts, specification's grammar rejects")
         elif rec["outcome"] == "no-states":
             pass
+        elif rec["outcome"] == "DuplicateSymbolError":
+            # two definitions of one name that the specification compares as TREES (p = 3 / p = + 3): the property
+            # speaks of DIFFERING definitions, and declared values that are equal as numbers do not differ.  Which
+            # duplicates are refused is judged by MC_IllFormed, whose duplicates differ in value by construction.
+            res["notes"].append("duplicate with another spelling accepted (not judged here)")
         elif not want_ok:
             # C08: accepted although the model the text denotes is ill formed
             res["problems"].append({"prop": "C08", "kind": "accepted-ill-formed", "spec_outcome": rec["outcome"], "text": t_line})
